@@ -13,6 +13,7 @@ var properties = []propertySpec{
 				Thorough: map[string]int{"N": 3, "L": 2, "order_schemes": 6},
 				Covers:   []string{"acyclic_state", "cyclic_state", "replace", "rejected_add", "deferred_add", "remove", "clear", "noop"},
 				Xval:     40,
+				XSolvers: []string{"z3-new", "cvc5"},
 				Desc:     "start state from symbolic presence/dependency masks over N identities (types x keys x groups), then L operations {AddProvider, AddProviderDeferred+DetectCycles, RemoveProvider, Clear, query-only} with symbolic operands; every exported query compared with a reference digraph after each step"},
 		},
 	},
@@ -30,6 +31,7 @@ var properties = []propertySpec{
 				Thorough: map[string]int{"N": 4, "order_schemes": 2},
 				Covers:   []string{"rejected", "all_accepted"},
 				Xval:     20,
+				XSolvers: []string{"z3-new", "cvc5"},
 				Desc:     "every digraph on N identities through immediate AddProvider, up to the first rejection"},
 		},
 	},
@@ -206,6 +208,19 @@ func init() {
 				h("cont.H_Order", bld(3, 3, 2), bld(0, 3, 2), []string{"both_built", "both_failed_or_differ"}, 20, "the same world registered and built twice: registration order permuted (intra-group order kept) and another map-order scheme; verdict classes equal, wiring of both isomorphic to the model, every singleton constructed after the singletons it received"),
 				h("cont.H_Order", bld(0, 2, 2), bld(0, 2, 4), []string{"both_built", "both_failed_or_differ"}, 0, "as above, every plain dependency shape on two registrations"),
 				h("cont.H_Order", bld(1, 2, 2), bld(1, 2, 4), []string{"both_built", "both_failed_or_differ"}, 0, "as above on keyed / group / interface edges"))
+		}
+	}
+}
+
+func init() {
+	// thorough tier: every solver query of these (cheap) harnesses is mirrored to
+	// z3 5.1 and cvc5 and the verdicts / value enumerations are diffed
+	for i := range properties {
+		switch properties[i].ID {
+		case "C13", "C14", "C18", "C20", "C09":
+			for j := range properties[i].Harnesses {
+				properties[i].Harnesses[j].XSolvers = []string{"z3-new", "cvc5"}
+			}
 		}
 	}
 }
